@@ -67,6 +67,10 @@ check("C12", "exploration",
       BASE_NOTE + " Histories are sampled with swarm-varied event mixes, not enumerated breadth-first (that would be model checking).",
       "deterministic simulation: seeded job-event histories + whole-shell job control with simulator-injected stop/continue/kill; invariant checker", "DESIGN.md section 4 C12")
 
+check("C11", "exploration",
+      "Two engines. (a) Seeded operation histories (set trap action default/ignore/command with and without override, enable/disable each group of internal dispositions, enter a subshell with each option combination, mark/take caught signals) x initial dispositions x nine signal classes incl. KILL/STOP and EXIT drive the real TrapSet against the real Concurrent<VirtualSystem>; after every operation the disposition and mask read back from the simulated process, the listing and the returned error must equal a reference merge written from the documentation (effective = max(internal, trap action); refused iff ignored on entry and not overridden; KILL/STOP never). (b) Whole scripts with USR1/USR2 traps while the simulator delivers signals to the shell at seeded scheduler steps, with preemption between any two kernel calls: stdout, every printed $? and the final status must equal the signal-free run; trap runs == deliveries (spaced) or 1..=deliveries (burst), never nested.",
+      BASE_NOTE, "deterministic simulation: operation histories vs reference merge model + signal injection at seeded scheduler steps vs pending-flag model", "DESIGN.md section 4 C11")
+
 import os
 selected = os.environ.get("MANIFEST_ONLY")
 manifest = {
